@@ -71,6 +71,8 @@ class Arg:
         self.checks = []          # ('lower',x) ('upper',x) ('range',a,b) ('values',[...]) ('minlen',n) ('maxlen',n) ('pattern',re)
         self.formats = []         # 'upper' | 'lower'
         self.posformats = []      # (value index, 'upper' | 'lower'): addFormatPos()
+        self.pairfmt = None       # key-value destinations: setPairFormat() string (1 or 3 characters)
+        self.fmtkey, self.fmtval = [], []   # addFormatKey() / addFormatValue()
         self.sep = None
         self.clear = self.sort = self.unique = self.uniqueerr = self.multi = False
         self.hidden = self.deprecated = False
@@ -673,6 +675,10 @@ def scenario_text(sid, tag, cfg, argv, prog="prog", as_string=None):
             o.append("fmt=" + f)
         for i, f in a.posformats:
             o.append("fmtpos=%d:%s" % (i, f))
+        for f in a.fmtkey:
+            o.append("fmtkey=" + f)
+        for f in a.fmtval:
+            o.append("fmtval=" + f)
         if a.sep:
             o.append("sep=%d" % ord(a.sep))
         if a.sort:
@@ -683,6 +689,8 @@ def scenario_text(sid, tag, cfg, argv, prog="prog", as_string=None):
             o.append("unique")
         if a.multi:
             o.append("multi")
+        if a.pairfmt:
+            o.append("pairfmt=" + hx(a.pairfmt))       # after sep: the pair format must not contain the list separator
         if a.hidden:
             o.append("hidden")
         if a.deprecated:
